@@ -174,6 +174,807 @@ theorem batchWithdraw_track {s : State} {ws : List Withdraw} {c x y : Nat} {l : 
       · injection h with h; subst h
         show _ = (getPool (setPool st.s (liquidityId c) _) (liquidityId c)).amount
         rw [getPool_setPool_self]
-        rfl
+        simp
+
+/-! ### deposits -/
+
+def depSum (ds : List Deposit) : Nat := (ds.map (·.amount)).sum
+
+/-- Σ amounts of the deposits flagged `b` -/
+def flagSum (b : Bool) : List (Deposit × Bool) → Nat
+  | [] => 0
+  | (d, f) :: zs => (if f = b then d.amount else 0) + flagSum b zs
+
+theorem flagSum_split (zs : List (Deposit × Bool)) : flagSum true zs + flagSum false zs = depSum (zs.map (·.1)) := by
+  induction zs with
+  | nil => rfl
+  | cons e zs ih =>
+    obtain ⟨d, f⟩ := e
+    cases f <;> simp [flagSum, depSum] at ih ⊢ <;> omega
+
+theorem addUint64_exact {a b : Nat} (h : ¬ (addUint64 a b).2 = true) : (addUint64 a b).1 = a + b := by
+  unfold addUint64 at *
+  simp only [decide_eq_true_eq] at h
+  exact Nat.mod_eq_of_lt (by omega)
+
+theorem addUint64_lt (a b : Nat) : (addUint64 a b).1 < U64 := Nat.mod_lt _ (by decide)
+
+theorem sumDeposits_exact : ∀ (ds : List Deposit) (acc r : Nat), sumDeposits ds acc = .ok r → r = acc + depSum ds := by
+  intro ds
+  induction ds with
+  | nil => intro acc r h; simp [sumDeposits] at h; simp [depSum, h]
+  | cons d ds ih =>
+    intro acc r h
+    unfold sumDeposits at h
+    dsimp only at h
+    split at h
+    · cases h
+    · have := ih _ _ h
+      rw [addUint64_exact ‹_›] at this
+      simp [depSum] at this ⊢; omega
+
+/-- PASS 1: the flags it appends, what it refunds (local side only), what it accepts -/
+theorem eff_depositPass1 (p : Pool) (c : Nat) (isLocal : Bool) (hc : c ≤ maxChainId) (st' : P1) :
+    ∀ (ds : List Deposit) (st : P1), depositPass1 p c isLocal ds st = .ok st' →
+      ∃ fl, st'.accepted = st.accepted ++ fl ∧ fl.length = ds.length ∧
+        Eff c st.s st'.s (if isLocal then flagSum false (ds.zip fl) else 0) ∧
+        st'.total = st.total + flagSum true (ds.zip fl) := by
+  intro ds
+  induction ds with
+  | nil => intro st h; simp [depositPass1] at h; subst h; exact ⟨[], by simp, rfl, by simpa [flagSum] using Eff.refl _ _, by simp [flagSum]⟩
+  | cons d ds ih =>
+    intro st h
+    unfold depositPass1 at h
+    simp only [bind, Except.bind, pure, Except.pure, throw, throwThe, MonadExceptOf.throw] at h
+    split at h
+    · -- refused at the cap
+      split at h
+      · -- local: refund
+        split at h
+        · cases h
+        · rename_i s1 hs1
+          split at h
+          · cases h
+          · rename_i s2 hs2
+            obtain ⟨fl, hacc, hlen, heff, htot⟩ := ih _ h
+            refine ⟨false :: fl, by simp [hacc], by simp [hlen], ?_, ?_⟩
+            · have e := ((eff_poolSub_hold hc hs1).trans (eff_accountAdd hs2)).trans heff
+              simp only [‹isLocal = true›, if_true] at e ⊢
+              exact e.cast (by simp [flagSum])
+            · simp [flagSum] at htot ⊢; exact htot
+      · obtain ⟨fl, hacc, hlen, heff, htot⟩ := ih _ h
+        refine ⟨false :: fl, by simp [hacc], by simp [hlen], ?_, ?_⟩
+        · have hl : isLocal = false := by simpa using ‹¬isLocal = true›
+          simp only [hl] at heff ⊢
+          exact heff
+        · simp [flagSum] at htot ⊢; exact htot
+    · split at h
+      · cases h
+      · obtain ⟨fl, hacc, hlen, heff, htot⟩ := ih _ h
+        refine ⟨true :: fl, by simp [hacc], by simp [hlen], ?_, ?_⟩
+        · cases isLocal <;> simp [flagSum] at heff ⊢ <;> exact heff
+        · rw [addUint64_exact ‹_›] at htot
+          simp [flagSum] at htot ⊢; omega
+
+theorem eff_depositLocal {s : State} {p : Pool} {c : Nat} {d : Deposit} {isLocal : Bool} {r : State × Pool}
+    (hc : c ≤ maxChainId) (hp : PoolOk p) (h : depositLocal s p c d isLocal = .ok r) :
+    Eff c s r.1 (if isLocal then d.amount else 0) ∧ PoolOk r.2 := by
+  unfold depositLocal at h
+  split at h
+  · rename_i hl
+    split at h
+    · cases h
+    · split at h
+      · cases h
+      · injection h with h; subst h
+        simp only [hl, if_true]
+        exact ⟨eff_poolSub_hold hc ‹poolSub s _ _ = Except.ok _›, poolOk_amount hp (addUint64_lt _ _)⟩
+  · rename_i hl
+    injection h with h; subst h
+    have hl' : isLocal = false := by simpa using hl
+    simp only [hl']
+    exact ⟨Eff.refl _ _, hp⟩
+
+theorem eff_depositPass2 (dl td c : Nat) (isLocal : Bool) (hc : c ≤ maxChainId) (st' : P2) :
+    ∀ (zs : List (Deposit × Bool)) (st : P2), PoolOk st.p → depositPass2 dl td c isLocal zs st = .ok st' →
+      Eff c st.s st'.s (if isLocal then flagSum true zs else 0) ∧ st'.x = st.x + flagSum true zs ∧
+      (st.x < U64 → st'.x < U64) ∧ PoolOk st'.p := by
+  intro zs
+  induction zs with
+  | nil =>
+    intro st hp h; simp [depositPass2] at h; subst h
+    exact ⟨by simpa [flagSum] using Eff.refl _ _, by simp [flagSum], id, hp⟩
+  | cons e zs ih =>
+    intro st hp h
+    obtain ⟨d, acc⟩ := e
+    cases acc
+    · unfold depositPass2 at h
+      obtain ⟨e1, e2, e3, e4⟩ := ih _ hp h
+      exact ⟨by simpa [flagSum] using e1, by simpa [flagSum] using e2, e3, e4⟩
+    · unfold depositPass2 at h
+      split at h
+      · cases h
+      · rename_i p1 hp1
+        have hp1ok : PoolOk p1 := by
+          obtain ⟨hpts, hamt⟩ := addPoints_ok hp.pts (safeMulDiv_lt _ _ _) hp1
+          exact ⟨hpts, by rw [hamt]; exact hp.amt⟩
+        split at h
+        · cases h
+        · rename_i sp hsp
+          obtain ⟨el, hpl⟩ := eff_depositLocal hc hp1ok hsp
+          split at h
+          · cases h
+          · obtain ⟨e1, e2, e3, e4⟩ := ih _ (by exact hpl) h
+            refine ⟨?_, ?_, fun _ => e3 (addUint64_lt _ _), e4⟩
+            · have := el.trans e1
+              cases isLocal <;> simp [flagSum] at this ⊢ <;> exact this
+            · rw [e2]; dsimp only; rw [addUint64_exact ‹_›]; simp [flagSum]; omega
+
+theorem eff_mintDeposits {p1 : P1} {p : Pool} {ds : List Deposit} {c x y : Nat} {isLocal persist : Bool} {l : Ledger}
+    (hc : c ≤ maxChainId) (hp : PoolOk p) (h : mintDeposits p1 p ds c x y isLocal persist = .ok l) :
+    Eff c p1.s l.s (if isLocal then flagSum true (ds.zip p1.accepted) else 0) ∧ PoolOk l.p ∧
+    l.x = x + flagSum true (ds.zip p1.accepted) ∧ (x < U64 → l.x < U64) ∧ l.y = y := by
+  have hpts := mintDeposits_points hp.pts h
+  unfold mintDeposits at h
+  split at h
+  · cases h
+  · rename_i lp hlp
+    have hlp_ok : PoolOk lp.2 := by
+      unfold initDead at hlp
+      split at hlp
+      · split at hlp
+        · cases hlp
+        · injection hlp with hlp; subst hlp
+          obtain ⟨hpts', hamt⟩ := addPoints_ok hp.pts (sqrtProduct_lt _ _) ‹addPoints _ _ _ = Except.ok _›
+          exact ⟨hpts', by rw [hamt]; exact hp.amt⟩
+      · injection hlp with hlp; subst hlp; exact hp
+    split at h
+    · cases h
+    · split at h
+      · cases h
+      · rename_i p2 hp2
+        obtain ⟨e1, e2, e3, e4⟩ := eff_depositPass2 _ _ _ _ hc _ _ _ hlp_ok hp2
+        split at h
+        · cases h
+        · rename_i pf hpf
+          injection h with h; subst h
+          have hok : PoolOk pf := ⟨hpts, by
+            have := (addPoints_ok e4.pts (n := _ - _) (by have := mapErr_ldp_lt ‹mapErr _ = Except.ok _›; omega) hpf).2
+            rw [this]; exact e4.amt⟩
+          refine ⟨?_, hok, e2, e3, rfl⟩
+          dsimp only
+          split
+          · exact (e1.trans (eff_setPool_liq _ _ hc hok)).cast (by simp)
+          · exact e1
+
+/-- `handleBatchDeposit` without the cap logic -/
+theorem eff_batchDepositCore {s : State} {ds : List Deposit} {c x y : Nat} {isLocal : Bool} {p0 : Option Pool} {persist : Bool}
+    {l : Ledger} (hc : c ≤ maxChainId) (hp : PoolOk (p0.getD (getPool s (liquidityId c))))
+    (h : batchDepositCore s ds c x y isLocal p0 persist = .ok l) :
+    ∃ D, Eff c s l.s D ∧ PoolOk l.p ∧ l.y = y ∧ x ≤ l.x ∧ (x < U64 → l.x < U64) ∧
+      (isLocal = false → D = 0) ∧ (isLocal = true → x ≠ 0 → y ≠ 0 → D = depSum ds) ∧
+      ((x = 0 ∨ y = 0) → l.s = s ∧ l.x = x ∧ l.p = p0.getD (getPool s (liquidityId c))) := by
+  unfold batchDepositCore at h
+  dsimp only at h
+  split at h
+  · rename_i hds
+    injection h with h; subst h
+    exact ⟨0, Eff.refl _ _, hp, rfl, Nat.le_refl _, id, fun _ => rfl, fun _ _ _ => by simp [hds, depSum], fun _ => ⟨rfl, rfl, rfl⟩⟩
+  · split at h
+    · cases h
+    · rename_i raw hraw
+      have hrawe := sumDeposits_exact _ _ _ hraw
+      split at h
+      · rename_i hz
+        injection h with h; subst h
+        refine ⟨0, Eff.refl _ _, hp, rfl, Nat.le_refl _, id, fun _ => rfl, ?_, fun _ => ⟨rfl, rfl, rfl⟩⟩
+        intro _ hx hy
+        rcases hz with hz | hz | hz
+        · omega
+        · exact absurd hz hx
+        · exact absurd hz hy
+      · rename_i hnz
+        split at h
+        · cases h
+        · rename_i p1 hp1
+          obtain ⟨fl, hacc, hlen, heff, htot⟩ := eff_depositPass1 _ _ _ hc _ _ _ hp1
+          simp only [List.nil_append] at hacc
+          have hzip : (ds.zip fl).map (·.1) = ds := by
+            rw [List.map_fst_zip]; omega
+          have hsplit := flagSum_split (ds.zip fl)
+          rw [hzip] at hsplit
+          simp only [Nat.zero_add] at htot
+          have hxy : ¬ (x = 0 ∨ y = 0) := fun hh => hnz (by rcases hh with hh | hh; exact Or.inr (Or.inl hh); exact Or.inr (Or.inr hh))
+          split at h
+          · rename_i ht0
+            injection h with h; subst h
+            refine ⟨_, heff, hp, rfl, Nat.le_refl _, id, fun hl => by simp [hl], ?_, fun hh => absurd hh hxy⟩
+            intro hl _ _
+            simp only [hl, if_true]
+            omega
+          · obtain ⟨e1, e2, e3, e4, e5⟩ := eff_mintDeposits hc hp h
+            rw [hacc] at e1 e3
+            refine ⟨_, heff.trans e1, e2, e5, by omega, e4, fun hl => by simp [hl], ?_, fun hh => absurd hh hxy⟩
+            intro hl _ _
+            simp only [hl, if_true]
+            omega
+
+/-! ### the provider cap: eviction, rejection, the newcomer loop -/
+
+theorem share_lt {r m P : Nat} (hr : 0 < r) (hm : m < P) : safeMulDiv (safeMulDiv r m P) m m < r := by
+  have h1 := share_le r m P m
+  have : r * m / P < r := by
+    apply Nat.div_lt_of_lt_mul
+    calc r * m < r * P := Nat.mul_lt_mul_of_pos_left hm hr
+      _ = P * r := Nat.mul_comm _ _
+  omega
+
+/-- the forced eviction (a single 100% withdrawal of one holder) leaves both ledgers positive -/
+theorem evict_positive {s : State} {a : Bytes} {c x y : Nat} {isLocal : Bool} {p : Pool} {l : Ledger}
+    (hp : PointsOk p) (hx : 0 < x) (hx64 : x < U64) (hy : 0 < y) (hy64 : y < U64)
+    (h : batchWithdraw s [{ percent := 100, addr := a, id := [] }] c x y isLocal (some p) false = .ok l) :
+    0 < l.x ∧ 0 < l.y := by
+  unfold batchWithdraw at h
+  simp only [Option.getD_some] at h
+  rw [if_neg (by simp)] at h
+  obtain ⟨T, hT, h⟩ := bind_ok h
+  split at h
+  · injection h with h; subst h; exact ⟨hx, hy⟩
+  · rename_i hT0
+    obtain ⟨st, hst, h⟩ := bind_ok h
+    split at h
+    · cases h
+    · rename_i htot
+      injection h with h; subst h
+      dsimp only
+      -- unfold the two single-element passes
+      unfold withdrawTotal at hT
+      dsimp only at hT
+      split at hT
+      · simp [withdrawTotal] at hT; subst hT; simp at hT0
+      · rename_i i hi
+        split at hT
+        · cases hT
+        · rename_i hov
+          simp [withdrawTotal] at hT
+          have hm : T = safeMulDiv (ptsAt (dropZero p.points) i) 100 100 := by
+            rw [← hT, addUint64_exact hov]; simp
+          unfold withdrawPay at hst
+          dsimp only at hst
+          rw [hi] at hst
+          dsimp only at hst
+          obtain ⟨s1, _, hst⟩ := bind_ok hst
+          simp [withdrawPay] at hst
+          subst hst
+          dsimp only at htot ⊢
+          rw [← hm] at htot ⊢
+          have hle : T ≤ ptsAt (dropZero p.points) i := by rw [hm]; exact safeMulDiv_percent_le _ _ (Nat.le_refl _)
+          have hheld := ptsAt_le_sum (dropZero p.points) i
+          have hsum : ptsSum (dropZero p.points) = p.total := by rw [ptsSum_dropZero]; exact hp.sum
+          have hfit := hp.fits
+          have hTP : T < p.total := by
+            rw [subU64_eq (by omega) hfit] at htot
+            omega
+          have hX := share_lt (r := x) hx hTP
+          have hY := share_lt (r := y) hy hTP
+          rw [Nat.mod_eq_of_lt (safeMulDiv_lt _ _ _), Nat.mod_eq_of_lt (safeMulDiv_lt _ _ _),
+            subU64_eq (by omega) hx64, subU64_eq (by omega) hy64]
+          omega
+
+theorem sqrt_zero : Nat.sqrt 0 = 0 := sqrt_eq_of (by decide) (by decide)
+
+theorem safeMulDiv_zero_left (b c : Nat) : safeMulDiv 0 b c = 0 := by
+  unfold safeMulDiv; split <;> simp
+
+theorem ldp_zero_reserve {L x y a : Nat} (h : x = 0 ∨ y = 0) : mapErr (liquidityDepositPoints L x y a) = .error .InvalidLiquidityPool := by
+  have hs : sqrtProduct x y = 0 := by
+    unfold sqrtProduct
+    rcases h with h | h <;> subst h <;> simp [sqrt_zero]
+  unfold liquidityDepositPoints
+  split
+  · rfl
+  · rw [if_pos (Or.inl hs)]; rfl
+
+/-- ledger of the cap loop: pool well formed, both ledgers `uint64` -/
+structure LOk (l : Ledger) : Prop where
+  pool : PoolOk l.p
+  x64 : l.x < U64
+  y64 : l.y < U64
+
+theorem Ledger.ext' {l l' : Ledger} (hs : l'.s = l.s) (hp : l'.p = l.p) (hx : l'.x = l.x) (hy : l'.y = l.y) : l' = l := by
+  cases l; cases l'; simp_all
+
+theorem eff_cappedEvict {c : Nat} {isLocal : Bool} (hc : c ≤ maxChainId) {nc : Newcomer} {l : Ledger} {low : Bytes × Nat}
+    {r : Ledger × Option (Bytes × Nat)} (hl : LOk l) (hnc : nc.amount = depSum nc.deposits)
+    (h : cappedEvict c isLocal nc l low = .ok r) :
+    l.x ≠ 0 ∧ l.y ≠ 0 ∧ ∃ D, Eff c l.s r.1.s D ∧ LOk r.1 ∧ (isLocal = false → D = 0) ∧
+      (isLocal = true → D = nc.amount) ∧ r.1.x ≠ 0 ∧ r.1.y ≠ 0 := by
+  unfold cappedEvict at h
+  obtain ⟨ts, hts, h⟩ := bind_ok h
+  have hxy : l.x ≠ 0 ∧ l.y ≠ 0 := by
+    constructor
+    · intro hx
+      rw [ldp_zero_reserve (Or.inl (by rw [hx, safeMulDiv_zero_left]; rfl))] at hts
+      cases hts
+    · intro hy
+      rw [ldp_zero_reserve (Or.inr (by rw [hy, safeMulDiv_zero_left]; rfl))] at hts
+      cases hts
+  refine ⟨hxy.1, hxy.2, ?_⟩
+  clear hts
+  dsimp only at h
+  split at h
+  · split at h
+    · rename_i hloc
+      obtain ⟨s1, h2, h⟩ := bind_ok h
+      obtain ⟨s2, h3, h⟩ := bind_ok h
+      injection h with h; subst h
+      refine ⟨nc.amount, ((eff_poolSub_hold hc h2).trans (eff_accountAdd h3)).cast (by simp), LOk.mk hl.pool hl.x64 hl.y64,
+        ?_, ?_, hxy.1, hxy.2⟩
+      · intro hf; rw [hloc] at hf; cases hf
+      · intro _; rfl
+    · rename_i hloc
+      injection h with h; subst h
+      refine ⟨0, Eff.refl _ _, LOk.mk hl.pool hl.x64 hl.y64, ?_, ?_, hxy.1, hxy.2⟩
+      · intro _; rfl
+      · intro ht; exact absurd ht hloc
+  · obtain ⟨l1, h2, h⟩ := bind_ok h
+    obtain ⟨l2, h3, h⟩ := bind_ok h
+    injection h with h; subst h
+    have hw : ∀ w ∈ [({ percent := 100, addr := low.1, id := [] } : Withdraw)], w.percent ≤ 100 := by
+      intro w hw; simp at hw; subst hw; exact Nat.le_refl _
+    obtain ⟨e1, hp1, hx1, hy1⟩ := eff_batchWithdraw (p0 := some l.p) hc hw hl.pool h2
+    have hpos := evict_positive hl.pool.pts (Nat.pos_of_ne_zero hxy.1) hl.x64 (Nat.pos_of_ne_zero hxy.2) hl.y64 h2
+    obtain ⟨D, e2, hp2, hy2, hx2, hx2', hD0, hD1, _⟩ := eff_batchDepositCore (p0 := some l1.p) hc hp1 h3
+    refine ⟨_, e1.trans e2, LOk.mk hp2 (hx2' (hx1 hl.x64)) (by rw [hy2]; exact hy1 hl.y64), ?_, ?_, ?_, ?_⟩
+    · intro hf; simp [hD0 hf]
+    · intro ht; rw [hD1 ht (by omega) (by omega), hnc]; simp
+    · show l2.x ≠ 0; omega
+    · show l2.y ≠ 0; omega
+
+theorem eff_cappedStep {c : Nat} {isLocal : Bool} (hc : c ≤ maxChainId) {nc : Newcomer} {l : Ledger} {low : Option (Bytes × Nat)}
+    {r : Ledger × Option (Bytes × Nat)} (hl : LOk l) (hnc : nc.amount = depSum nc.deposits)
+    (h : cappedStep c isLocal nc l low = .ok r) :
+    ∃ D, Eff c l.s r.1.s D ∧ LOk r.1 ∧ (isLocal = false → D = 0) ∧
+      (isLocal = true → l.x ≠ 0 → l.y ≠ 0 → D = nc.amount ∧ r.1.x ≠ 0 ∧ r.1.y ≠ 0) ∧
+      ((l.x = 0 ∨ l.y = 0) → r.1 = l) := by
+  unfold cappedStep at h
+  split at h
+  · split at h
+    · cases h
+    · rename_i l1 h1
+      injection h with h; subst h
+      obtain ⟨D, e, hp, hy, hx, hx', hD0, hD1, hz⟩ := eff_batchDepositCore (p0 := some l.p) hc hl.pool h1
+      refine ⟨D, e, LOk.mk hp (hx' hl.x64) (by rw [hy]; exact hl.y64), hD0, ?_, ?_⟩
+      · intro ht hx0 hy0; exact ⟨by rw [hD1 ht hx0 hy0, hnc], by show l1.x ≠ 0; omega, by show l1.y ≠ 0; omega⟩
+      · intro hh; obtain ⟨a, b, d⟩ := hz hh; exact Ledger.ext' a d b hy
+  · split at h
+    · cases h
+    · obtain ⟨hx0, hy0, D, e, hl', hD0, hD1, hx1, hy1⟩ := eff_cappedEvict hc hl hnc h
+      exact ⟨D, e, hl', hD0, fun ht _ _ => ⟨hD1 ht, hx1, hy1⟩, fun hh => by rcases hh with hh | hh <;> contradiction⟩
+
+def ncSum (ncs : List Newcomer) : Nat := (ncs.map (·.amount)).sum
+
+theorem eff_cappedLoop (c : Nat) (isLocal : Bool) (hc : c ≤ maxChainId) (l' : Ledger) :
+    ∀ (ncs : List Newcomer) (l : Ledger) (low : Option (Bytes × Nat)), LOk l →
+      (∀ nc ∈ ncs, nc.amount = depSum nc.deposits) → cappedLoop c isLocal ncs l low = .ok l' →
+      ∃ D, Eff c l.s l'.s D ∧ LOk l' ∧ (isLocal = false → D = 0) ∧
+        (isLocal = true → l.x ≠ 0 → l.y ≠ 0 → D = ncSum ncs ∧ l'.x ≠ 0 ∧ l'.y ≠ 0) ∧
+        ((l.x = 0 ∨ l.y = 0) → l' = l) := by
+  intro ncs
+  induction ncs with
+  | nil =>
+    intro l low hl _ h; simp [cappedLoop] at h; subst h
+    exact ⟨0, Eff.refl _ _, hl, fun _ => rfl, fun _ hx hy => ⟨by simp [ncSum], hx, hy⟩, fun _ => rfl⟩
+  | cons nc rest ih =>
+    intro l low hl hnc h
+    unfold cappedLoop at h
+    split at h
+    · cases h
+    · rename_i r hr
+      obtain ⟨D1, e1, hl1, hD0, hD1, hz1⟩ := eff_cappedStep hc hl (hnc nc (List.mem_cons_self)) hr
+      obtain ⟨D2, e2, hl2, hE0, hE1, hz2⟩ := ih r.1 r.2 hl1 (fun n hn => hnc n (List.mem_cons_of_mem _ hn)) h
+      refine ⟨_, e1.trans e2, hl2, fun hf => by simp [hD0 hf, hE0 hf], ?_, ?_⟩
+      · intro ht hx hy
+        obtain ⟨d1, hx1, hy1⟩ := hD1 ht hx hy
+        obtain ⟨d2, hx2, hy2⟩ := hE1 ht hx1 hy1
+        exact ⟨by simp [ncSum] at d2 ⊢; omega, hx2, hy2⟩
+      · intro hh
+        have := hz1 hh
+        rw [this] at hz2
+        exact hz2 hh
+
+/-! ### `handleBatchDeposit` with the cap -/
+
+def ncPairsSum (nc : List (Bytes × Newcomer)) : Nat := AM.wsum (fun _ (v : Newcomer) => v.amount) nc
+
+theorem AM.mem_set {κ ν : Type} [DecidableEq κ] (m : List (κ × ν)) (k : κ) (v : ν) (e : κ × ν)
+    (h : e ∈ AM.set m k v) : e = (k, v) ∨ e ∈ m := by
+  induction m with
+  | nil => simp [AM.set] at h; exact Or.inl h
+  | cons e0 m ih =>
+    obtain ⟨k0, v0⟩ := e0
+    by_cases h0 : k0 = k
+    · simp [AM.set, h0] at h
+      rcases h with h | h
+      · exact Or.inl h
+      · exact Or.inr (List.mem_cons_of_mem _ h)
+    · simp [AM.set, h0] at h
+      rcases h with h | h
+      · exact Or.inr (by rw [h]; exact List.mem_cons_self)
+      · rcases ih h with h | h
+        · exact Or.inl h
+        · exact Or.inr (List.mem_cons_of_mem _ h)
+
+theorem AM.entry_of_get? {κ ν : Type} [DecidableEq κ] (m : List (κ × ν)) (k : κ) (v : ν) (h : AM.get? m k = some v) :
+    ∃ e ∈ m, e.2 = v := by
+  induction m with
+  | nil => simp [AM.get?] at h
+  | cons e0 m ih =>
+    obtain ⟨k0, v0⟩ := e0
+    by_cases h0 : k0 = k
+    · simp [AM.get?, h0] at h; exact ⟨(k0, v0), List.mem_cons_self, h⟩
+    · simp [AM.get?, h0] at h
+      obtain ⟨e, he, hc⟩ := ih h
+      exact ⟨e, List.mem_cons_of_mem _ he, hc⟩
+
+theorem wsum_append_one {κ ν : Type} (f : κ → ν → Nat) (m : List (κ × ν)) (k : κ) (v : ν) :
+    AM.wsum f (m ++ [(k, v)]) = AM.wsum f m + f k v := by
+  induction m with
+  | nil => simp [AM.wsum]
+  | cons e m ih => obtain ⟨k0, v0⟩ := e; simp [AM.wsum, ih]; omega
+
+theorem depSum_append_one (l : List Deposit) (d : Deposit) : depSum (l ++ [d]) = depSum l + d.amount := by
+  simp [depSum]
+
+theorem classify_spec (prov : List Bytes) : ∀ (ds inc : List Deposit) (nc : List (Bytes × Newcomer)) (r : List Deposit × List (Bytes × Newcomer)),
+    (∀ e ∈ nc, e.2.amount = depSum e.2.deposits) → classify prov ds inc nc = .ok r →
+      depSum r.1 + ncPairsSum r.2 = depSum inc + ncPairsSum nc + depSum ds ∧ ∀ e ∈ r.2, e.2.amount = depSum e.2.deposits := by
+  intro ds
+  induction ds with
+  | nil => intro inc nc r hnc h; simp [classify] at h; subst h; exact ⟨by simp [depSum], hnc⟩
+  | cons d ds ih =>
+    intro inc nc r hnc h
+    unfold classify at h
+    split at h
+    · obtain ⟨e1, e2⟩ := ih _ _ _ hnc h
+      refine ⟨?_, e2⟩
+      rw [depSum_append_one] at e1
+      simp [depSum] at e1 ⊢; omega
+    · dsimp only at h
+      split at h
+      · cases h
+      · rename_i hov
+        have hex := addUint64_exact hov
+        cases hg : AM.get? nc d.addr with
+        | none =>
+          simp only [hg, Option.getD_none] at h hex
+          obtain ⟨e1, e2⟩ := ih _ _ _ (by
+            intro e he
+            rcases List.mem_append.mp he with he | he
+            · exact hnc e he
+            · simp at he; subst he; simp [depSum] at hex ⊢; exact hex) h
+          refine ⟨?_, e2⟩
+          simp only [ncPairsSum] at e1 ⊢
+          rw [wsum_append_one] at e1
+          simp [depSum] at e1 hex ⊢; omega
+        | some cur =>
+          simp only [hg, Option.getD_some] at h hex
+          have hcur : cur.amount = depSum cur.deposits := by
+            obtain ⟨e, he, hc⟩ := AM.entry_of_get? nc d.addr cur hg
+            rw [← hc]; exact hnc e he
+          obtain ⟨e1, e2⟩ := ih _ _ _ (by
+            intro e he
+            rcases AM.mem_set _ _ _ _ he with he | he
+            · subst he; dsimp only; rw [hex, depSum_append_one, hcur]
+            · exact hnc e he) h
+          refine ⟨?_, e2⟩
+          have hw := AM.wsum_set_old (fun _ (v : Newcomer) => v.amount) nc d.addr
+            { amount := (addUint64 cur.amount d.amount).1, deposits := cur.deposits ++ [d] } cur hg
+          simp only [ncPairsSum] at e1 ⊢
+          dsimp only at hw
+          simp [depSum] at e1 hex hw ⊢; omega
+
+theorem insertSorted_sum {α : Type} (lt : α → α → Bool) (f : α → Nat) (a : α) (l : List α) :
+    ((insertSorted lt a l).map f).sum = f a + (l.map f).sum := by
+  induction l with
+  | nil => simp [insertSorted]
+  | cons b bs ih =>
+    unfold insertSorted
+    split
+    · simp [ih]; omega
+    · simp
+
+theorem insertSorted_mem {α : Type} (lt : α → α → Bool) (a e : α) (l : List α) (h : e ∈ insertSorted lt a l) : e = a ∨ e ∈ l := by
+  induction l with
+  | nil => simp [insertSorted] at h; exact Or.inl h
+  | cons b bs ih =>
+    unfold insertSorted at h
+    split at h
+    · simp at h
+      rcases h with h | h
+      · exact Or.inr (by rw [h]; exact List.mem_cons_self)
+      · rcases ih h with h | h
+        · exact Or.inl h
+        · exact Or.inr (List.mem_cons_of_mem _ h)
+    · simp at h
+      rcases h with h | h | h
+      · exact Or.inl h
+      · exact Or.inr (by rw [h]; exact List.mem_cons_self)
+      · exact Or.inr (List.mem_cons_of_mem _ h)
+
+theorem stableSort_sum {α : Type} (lt : α → α → Bool) (f : α → Nat) (l : List α) :
+    ((stableSort lt l).map f).sum = (l.map f).sum := by
+  induction l with
+  | nil => rfl
+  | cons a l ih =>
+    show ((insertSorted lt a (stableSort lt l)).map f).sum = _
+    rw [insertSorted_sum, ih]; simp
+
+theorem stableSort_mem {α : Type} (lt : α → α → Bool) (e : α) (l : List α) (h : e ∈ stableSort lt l) : e ∈ l := by
+  induction l with
+  | nil => simp [stableSort] at h
+  | cons a l ih =>
+    simp only [stableSort, List.foldr] at h
+    rcases insertSorted_mem _ _ _ _ h with h | h
+    · rw [h]; exact List.mem_cons_self
+    · exact List.mem_cons_of_mem _ (ih h)
+
+theorem ncSum_map_snd (ncs : List (Bytes × Newcomer)) : ncSum (ncs.map (·.2)) = ncPairsSum ncs := by
+  induction ncs with
+  | nil => rfl
+  | cons e m ih => obtain ⟨k, v⟩ := e; simp [ncSum, ncPairsSum, AM.wsum] at ih ⊢; omega
+
+/-- `handleBatchDeposit` (cap included). Local role with both ledgers non-zero: the holding pool is debited by exactly
+Σ of the batch's deposits (accepted, refused-at-cap and rejected newcomers alike). With a zero ledger nothing moves
+(the caller then fails in `HandleDexBatchOrders`). Remote role: no holding pool is touched. -/
+theorem eff_batchDeposit {s : State} {b : Batch} {c x y : Nat} {isLocal : Bool} {l : Ledger} (hc : c ≤ maxChainId)
+    (hp : PoolOk (getPool s (liquidityId c))) (hx64 : x < U64) (hy64 : y < U64)
+    (h : batchDeposit s b c x y isLocal = .ok l) :
+    ∃ D, Eff c s l.s D ∧ LOk l ∧ (isLocal = false → D = 0) ∧
+      (isLocal = true → x ≠ 0 → y ≠ 0 → D = depSum b.deposits) ∧
+      ((x = 0 ∨ y = 0) → l.x = x ∧ l.y = y ∧ liqAmt l.s c = liqAmt s c) := by
+  unfold batchDeposit at h
+  dsimp only at h
+  split at h
+  · rename_i hds
+    injection h with h; subst h
+    exact ⟨0, Eff.refl _ _, LOk.mk hp hx64 hy64, fun _ => rfl, fun _ _ _ => by simp [hds, depSum], fun _ => ⟨rfl, rfl, rfl⟩⟩
+  · obtain ⟨cl, hcl, h⟩ := bind_ok h
+    obtain ⟨hsum, hncs⟩ := classify_spec _ _ _ _ _ (by intro e he; cases he) hcl
+    simp only [depSum, ncPairsSum, AM.wsum, List.map_nil, List.sum_nil, Nat.zero_add] at hsum
+    split at h
+    · obtain ⟨D, e, hpl, hy, hx, hx', hD0, hD1, hz⟩ := eff_batchDepositCore (p0 := some (getPool s (liquidityId c))) hc hp h
+      refine ⟨D, e, LOk.mk hpl (hx' hx64) (by rw [hy]; exact hy64), hD0, hD1, ?_⟩
+      intro hh
+      obtain ⟨a, b', _⟩ := hz hh
+      exact ⟨b', hy, by rw [a]⟩
+    · obtain ⟨l1, h1, h⟩ := bind_ok h
+      obtain ⟨l2, h2, h⟩ := bind_ok h
+      injection h with h; subst h
+      obtain ⟨D1, e1, hpl1, hy1, hx1, hx1', hD0, hD1, hz1⟩ := eff_batchDepositCore (p0 := some (getPool s (liquidityId c))) hc hp h1
+      have hl1 : LOk l1 := LOk.mk hpl1 (hx1' hx64) (by rw [hy1]; exact hy64)
+      obtain ⟨D2, e2, hl2, hE0, hE1, hz2⟩ := eff_cappedLoop c isLocal hc _ _ _ _ hl1
+        (by intro nc hnc
+            have := stableSort_mem _ _ _ hnc
+            obtain ⟨e, he, rfl⟩ := List.mem_map.mp this
+            exact hncs e he) h2
+      refine ⟨D1 + D2 + 0, (e1.trans e2).trans (eff_setPool_liq _ _ hc hl2.pool), LOk.mk hl2.pool hl2.x64 hl2.y64, ?_, ?_, ?_⟩
+      · intro hf; simp [hD0 hf, hE0 hf]
+      · intro ht hx0 hy0
+        obtain ⟨d2, _, _⟩ := hE1 ht (by omega) (by rw [hy1]; exact hy0)
+        rw [hD1 ht hx0 hy0, d2]
+        have hs := stableSort_sum (fun (a c : Newcomer) => decide (a.amount > c.amount) || (a.amount == c.amount &&
+          bytesLt (sha256 (b.receiptHash ++ (a.deposits.head?.map (·.addr)).getD [])) (sha256 (b.receiptHash ++ (c.deposits.head?.map (·.addr)).getD []))))
+          (·.amount) (cl.2.map (·.2))
+        have hm := ncSum_map_snd cl.2
+        simp only [ncSum, depSum, ncPairsSum] at hs hm hsum ⊢
+        omega
+      · intro hh
+        obtain ⟨a, b', d⟩ := hz1 hh
+        have : l2 = l1 := hz2 (by rw [b', hy1]; exact hh)
+        subst this
+        refine ⟨b', hy1, ?_⟩
+        show (getPool (setPool l2.s (liquidityId c) l2.p) (liquidityId c)).amount = _
+        rw [getPool_setPool_self, d]
+        simp [liqAmt]
+
+/-! ### receipts, AMM execution, the two phases of `HandleRemoteDexBatch` -/
+
+def orderSum (os : List LimitOrder) : Nat := (os.map (·.amount)).sum
+
+theorem liqAmt_congr {s s' : State} (h : s'.pools = s.pools) (c : Nat) : liqAmt s' c = liqAmt s c := by
+  simp [liqAmt, getPool_congr h]
+
+theorem eff_orderReceipts (c : Nat) (hc : c ≤ maxChainId) : ∀ (os : List LimitOrder) (rs : List Nat) (s : State) (x y : Nat)
+    (r : State × Nat × Nat), orderReceipts c os rs s x y = .ok r →
+      Eff c s r.1 (orderSum os) ∧ (x = liqAmt s c → r.2.1 = liqAmt r.1 c) ∧ (x < U64 → r.2.1 < U64) ∧ r.2.2 ≤ y := by
+  intro os
+  induction os with
+  | nil =>
+    intro rs s x y r h; simp [orderReceipts] at h; subst h
+    exact ⟨by simpa [orderSum] using Eff.refl _ _, id, id, Nat.le_refl _⟩
+  | cons o os ih =>
+    intro rs s x y r h
+    unfold orderReceipts at h
+    obtain ⟨s1, h1, h⟩ := bind_ok h
+    have e1 := eff_poolSub_hold hc h1
+    have hl1 : liqAmt s1 c = liqAmt s c := by
+      obtain ⟨_, rfl⟩ := poolSub_ok h1
+      unfold liqAmt; rw [getPool_setPool_other _ _ _ _ (Ne.symm (holdingId_ne_liq hc hc))]
+    dsimp only at h
+    split at h
+    · split at h
+      · cases h
+      · obtain ⟨e2, t2, b2, y2⟩ := ih _ _ _ _ _ h
+        refine ⟨?_, ?_, fun _ => b2 (Nat.mod_lt _ (by decide)), by omega⟩
+        · exact ((e1.trans (eff_poolAdd_liq _ _ hc)).trans e2).cast (by simp only [orderSum, List.map_cons, List.sum_cons]; omega)
+        · intro hx
+          apply t2
+          unfold liqAmt at hl1 hx ⊢
+          rw [poolAdd_self, hl1, hx]
+    · obtain ⟨s2, h2, h⟩ := bind_ok h
+      obtain ⟨e2, t2, b2, y2⟩ := ih _ _ _ _ _ h
+      refine ⟨?_, ?_, b2, y2⟩
+      · exact ((e1.trans (eff_accountAdd h2)).trans e2).cast (by simp only [orderSum, List.map_cons, List.sum_cons]; omega)
+      · intro hx
+        apply t2
+        rw [liqAmt_congr (accountAdd_ok h2).2.1, hl1, hx]
+
+theorem eff_payReceipts (c : Nat) (hc : c ≤ maxChainId) : ∀ (os : List (Bytes × LimitOrder)) (res : List (Bytes × Nat)) (s : State)
+    (acc : List Nat) (r : State × List Nat), payReceipts c os res s acc = .ok r → Eff c s r.1 0 := by
+  intro os
+  induction os with
+  | nil => intro res s acc r h; simp [payReceipts] at h; subst h; exact Eff.refl _ _
+  | cons o os ih =>
+    intro res s acc r h
+    obtain ⟨k, o⟩ := o
+    unfold payReceipts at h
+    dsimp only at h
+    split at h
+    · obtain ⟨s1, h1, h⟩ := bind_ok h
+      obtain ⟨s2, h2, h⟩ := bind_ok h
+      exact (((eff_poolSub_liq hc h1).trans (eff_accountAdd h2)).trans (ih _ _ _ _ h)).cast rfl
+    · exact ih _ _ _ _ h
+
+theorem ammLoop_bounds : ∀ (l : List (Bytes × LimitOrder)) (i x y : Nat) (res : List (Bytes × Nat)) (r : Nat × Nat × List (Bytes × Nat)),
+    ammLoop l i x y res = .ok r → (x < U64 → r.1 < U64) ∧ r.2.1 ≤ y := by
+  intro l
+  induction l with
+  | nil => intro i x y res r h; simp [ammLoop] at h; subst h; exact ⟨id, Nat.le_refl _⟩
+  | cons e l ih =>
+    intro i x y res r h
+    obtain ⟨k, o⟩ := e
+    unfold ammLoop at h
+    split at h
+    · injection h with h; subst h; exact ⟨id, Nat.le_refl _⟩
+    · split at h
+      · cases h
+      · rename_i dY0 _
+        dsimp only at h
+        generalize (if dY0 < o.requested then 0 else dY0) = dY at h
+        by_cases hd : dY ≠ 0
+        · rw [if_pos hd] at h
+          by_cases hov : (addUint64 x o.amount).2 = true
+          · rw [if_pos hov] at h; cases h
+          · rw [if_neg hov] at h
+            obtain ⟨b1, b2⟩ := ih _ _ _ _ _ h
+            exact ⟨fun _ => b1 (addUint64_lt _ _), by omega⟩
+        · rw [if_neg hd] at h
+          exact ih _ _ _ _ _ h
+
+theorem eff_dexBatchOrders {s : State} {os : List LimitOrder} {bh : Bytes} {x y c : Nat} {r : State × Nat × Nat × List Nat}
+    (hc : c ≤ maxChainId) (h : dexBatchOrders s os bh x y c = .ok r) :
+    Eff c s r.1 0 ∧ x ≠ 0 ∧ y ≠ 0 ∧ (x < U64 → r.2.1 < U64) ∧ r.2.2.1 ≤ y := by
+  unfold dexBatchOrders at h
+  dsimp only at h
+  split at h
+  · cases h
+  · rename_i hz
+    obtain ⟨a, ha, h⟩ := bind_ok h
+    obtain ⟨p, hp, h⟩ := bind_ok h
+    injection h with h; subst h
+    obtain ⟨b1, b2⟩ := ammLoop_bounds _ _ _ _ _ _ ha
+    exact ⟨eff_payReceipts c hc _ _ _ _ _ hp, fun hx => hz (Or.inl hx), fun hy => hz (Or.inr hy), b1, b2⟩
+
+/-- percents of a batch's withdrawals -/
+def PctOk (ws : List Withdraw) : Prop := ∀ w ∈ ws, w.percent ≤ 100
+
+/-- steps 2+3: no holding pool moves; it only succeeds with both reserves non-zero; then it rotates -/
+theorem eff_executeRemote {s s' : State} {remote : Batch} {c : Nat} {bh : Bytes} {mirror : Nat} (hc : c ≤ maxChainId)
+    (hpi : PInv s) (hw : PctOk remote.withdrawals) (hm : mirror < U64)
+    (h : executeRemote s remote c bh mirror = .ok s') :
+    mirror ≠ 0 ∧ liqAmt s c ≠ 0 ∧ ∃ s1 rh a b rs, Eff c s s1 0 ∧ s' = rotate s1 rh a b c rs := by
+  unfold executeRemote at h
+  dsimp only at h
+  obtain ⟨r, hr, h⟩ := bind_ok h
+  obtain ⟨l1, hl1, h⟩ := bind_ok h
+  obtain ⟨l2, hl2, h⟩ := bind_ok h
+  injection h with h; subst h
+  obtain ⟨e0, hx0, hy0, bx, by'⟩ := eff_dexBatchOrders hc hr
+  have hp0 := e0.pinv hpi
+  obtain ⟨e1, hp1, bx1, by1⟩ := eff_batchWithdraw (p0 := none) hc hw (hp0 _) hl1
+  have hp1' := e1.pinv hp0
+  have hliq64 : (getPool s (liquidityId c)).amount < U64 := (hpi _).amt
+  obtain ⟨D, e2, _, hD0, _, _⟩ := eff_batchDeposit hc (hp1' _) (bx1 (bx hm)) (by1 (by omega)) hl2
+  refine ⟨hx0, hy0, l2.s, _, _, _, _, ?_, rfl⟩
+  have := (e0.trans e1).trans e2
+  rw [hD0 rfl] at this
+  exact this
+
+/-- step 1 (receipt hash matched): the holding pool is debited by the whole pending Σ of our locked batch — unless a
+ledger was zero when the deposits were reached, in which case the mirror or our pool is zero and step 2 will fail -/
+theorem eff_applyReceipts {s : State} {lb remote : Batch} {c : Nat} {r : State × Nat} (hc : c ≤ maxChainId)
+    (hpi : PInv s) (hw : PctOk lb.withdrawals) (hm : remote.poolSize < U64)
+    (h : applyReceipts s lb remote c = .ok r) :
+    ∃ s1 D, Eff c s s1 D ∧ r.1 = delLocked s1 c ∧ r.2 < U64 ∧ (D = lb.pending ∨ r.2 = 0 ∨ liqAmt s1 c = 0) := by
+  unfold applyReceipts at h
+  obtain ⟨r0, hr0, h⟩ := bind_ok h
+  obtain ⟨l1, hl1, h⟩ := bind_ok h
+  obtain ⟨l2, hl2, h⟩ := bind_ok h
+  injection h with h; subst h
+  obtain ⟨e0, t0, b0, y0⟩ := eff_orderReceipts c hc _ _ _ _ _ _ hr0
+  have hp0 := e0.pinv hpi
+  obtain ⟨e1, hp1, bx1, by1⟩ := eff_batchWithdraw (p0 := none) hc hw (hp0 _) hl1
+  have t1 := batchWithdraw_track (t0 rfl) hl1
+  have hp1' := e1.pinv hp0
+  have hx64 : l1.x < U64 := bx1 (b0 (hpi _).amt)
+  have hy64 : l1.y < U64 := by1 (by omega)
+  obtain ⟨D, e2, hl2ok, _, hD1, hz⟩ := eff_batchDeposit hc (hp1' _) hx64 hy64 hl2
+  refine ⟨l2.s, _, (e0.trans e1).trans e2, rfl, hl2ok.y64, ?_⟩
+  by_cases hxy : l1.x = 0 ∨ l1.y = 0
+  · obtain ⟨hx, hy, hliq⟩ := hz hxy
+    rcases hxy with h0 | h0
+    · right; right; rw [hliq, ← t1, h0]
+    · right; left; show l2.y = 0; rw [hy, h0]
+  · left
+    have : l1.x ≠ 0 ∧ l1.y ≠ 0 := by omega
+    rw [hD1 rfl this.1 this.2]
+    simp [Batch.pending, orderSum, depSum]
+
+theorem eff_refundAll (c : Nat) (hc : c ≤ maxChainId) : ∀ (l : List (Bytes × Nat)) (s s' : State),
+    refundAll c l s = .ok s' → Eff c s s' (l.map (·.2)).sum := by
+  intro l
+  induction l with
+  | nil => intro s s' h; simp [refundAll] at h; subst h; simpa using Eff.refl _ _
+  | cons e l ih =>
+    intro s s' h
+    obtain ⟨a, n⟩ := e
+    unfold refundAll at h
+    split at h
+    · cases h
+    · rename_i s1 hr
+      unfold refund at hr
+      obtain ⟨s0, h0, hr⟩ := bind_ok hr
+      exact (((eff_poolSub_hold hc h0).trans (eff_accountAdd hr)).trans (ih _ _ h)).cast (by simp)
+
+/-- the fallback: refund everything pending in our locked batch, install the remote table, drop the batch -/
+theorem eff_livenessFallback {s s' : State} {c : Nat} {lb remote : Batch} (hc : c ≤ maxChainId)
+    (hrt : ptsSum remote.poolPoints = remote.totalPoolPoints ∧ remote.totalPoolPoints < U64)
+    (h : livenessFallback s c lb remote = .ok s') :
+    ∃ s1, Eff c s s1 lb.pending ∧ s' = setLocked s1 c {} := by
+  unfold livenessFallback at h
+  obtain ⟨s1, h1, h⟩ := bind_ok h
+  obtain ⟨s2, h2, h⟩ := bind_ok h
+  injection h with h; subst h
+  have e1 := eff_refundAll c hc _ _ _ h1
+  have e2 := eff_refundAll c hc _ _ _ h2
+  refine ⟨_, ?_, rfl⟩
+  have e12 := e1.trans e2
+  have hsum : (List.map (fun x => x.2) (List.map (fun (o : LimitOrder) => (o.addr, o.amount)) lb.orders)).sum +
+      (List.map (fun x => x.2) (List.map (fun (d : Deposit) => (d.addr, d.amount)) lb.deposits)).sum = lb.pending := by
+    simp [Batch.pending, List.map_map, Function.comp_def]
+  refine ⟨e12.next, e12.locked, e12.height, e12.root, ?_, ?_, ?_⟩
+  · have := e12.hold
+    unfold holdAmt at this ⊢
+    rw [getPool_setPool_other _ _ _ _ (holdingId_ne_liq hc hc)]
+    omega
+  · intro c' h' hne
+    have := e12.holdOther c' h' hne
+    unfold holdAmt at this ⊢
+    rw [getPool_setPool_other _ _ _ _ (holdingId_ne_liq hc h')]
+    exact this
+  · intro hp
+    have hp2 := e12.pinv hp
+    exact pinv_setPool hp2 ⟨⟨hrt.1, hrt.2⟩, (hp2 _).amt⟩
 
 end Canopy.Dex
